@@ -12,46 +12,92 @@ from .sym import Resolver, Term, show
 
 
 def const_eval(p: Program, fn: FunctionInfo, args: list[Any]) -> Any:
-    """Evaluate a straight-line arithmetic helper (like FunctionFactory._precedence) on constant arguments."""
-    env: dict[str, Any] = {}
+    """Evaluate an arithmetic helper (like FunctionFactory._precedence) on constant arguments: its resolved return term is
+    interpreted with the parameters bound (locals, temporaries and tuple assignments are seen through)."""
     params = [x.name for x in fn.params if x.name != "self"]
     if len(params) != len(args):
         raise AnalysisError(f"cannot evaluate {fn.qualname} on {len(args)} argument(s)")
-    env.update(zip(params, args))
+    env = dict(zip(params, args))
+    r = Resolver(p, fn)
+    rets = [n for n in r.cfg.stmt_nodes() if isinstance(n.ast, ast.Return) and n.ast.value is not None]
+    if len(rets) != 1:
+        raise AnalysisError(f"{fn.qualname}: expected a single return for constant evaluation")
 
-    def ev(e: ast.AST) -> Any:
-        if isinstance(e, ast.Constant) and isinstance(e.value, (int, float)):
-            return e.value
-        if isinstance(e, ast.Name) and e.id in env:
-            return env[e.id]
-        if isinstance(e, ast.UnaryOp) and isinstance(e.op, (ast.USub, ast.UAdd)):
-            v = ev(e.operand)
-            return -v if isinstance(e.op, ast.USub) else v
-        if isinstance(e, ast.BinOp):
-            a, b = ev(e.left), ev(e.right)
-            if isinstance(e.op, ast.Add):
-                return a + b
-            if isinstance(e.op, ast.Sub):
-                return a - b
-            if isinstance(e.op, ast.Mult):
-                return a * b
-            if isinstance(e.op, ast.Div):
-                return a / b
-            if isinstance(e.op, ast.FloorDiv):
-                return a // b
-            if isinstance(e.op, ast.Pow):
-                return a ** b
-        raise AnalysisError(f"{fn.qualname}: cannot evaluate `{unparse(e)}` as constant arithmetic")
+    def ev(t: Term) -> Any:
+        k = t[0]
+        if k == "const" and isinstance(t[1], (int, float)):
+            return t[1]
+        if k == "param" and t[1] in env:
+            return env[t[1]]
+        if k == "unop" and t[1] in ("-", "+"):
+            v = ev(t[2])
+            return -v if t[1] == "-" else v
+        if k == "unpack" and t[1][0] in ("tuple", "list") and len(t[2]) == 1 and isinstance(t[2][0], int):
+            return ev(t[1][1][t[2][0]])
+        if k == "binop":
+            a, b = ev(t[2]), ev(t[3])
+            ops = {"+": lambda: a + b, "-": lambda: a - b, "*": lambda: a * b, "/": lambda: a / b, "//": lambda: a // b, "**": lambda: a ** b}
+            if t[1] in ops:
+                return ops[t[1]]()
+        if k == "call" and t[1][0] == "global" and t[1][1] in ("int", "float") and len(t[2]) == 1:
+            return (int if t[1][1] == "int" else float)(ev(t[2][0]))
+        raise AnalysisError(f"{fn.qualname}: cannot evaluate `{show(t)[:80]}` as constant arithmetic")
+
+    return ev(r.term(rets[0].ast.value, rets[0]))  # type: ignore[union-attr]
+
+
+def built_list(fn: FunctionInfo, r: Resolver) -> list[tuple[ast.expr, Any]]:
+    """The elements of the list a straight-line builder returns: a list literal, or a local list grown by append / extend / +=
+    / concatenation. Returns [(element expression, cfg node of the statement that adds it)]."""
+    lists: dict[str, list[tuple[ast.expr, Any]]] = {}
+    node_of = {id(n.ast): n for n in r.cfg.stmt_nodes() if not n.copy}
+
+    def elements(e: ast.expr, n: Any) -> list[tuple[ast.expr, Any]]:
+        if isinstance(e, (ast.List, ast.Tuple)):
+            out = []
+            for x in e.elts:
+                if isinstance(x, ast.Starred):
+                    out += elements(x.value, n)
+                else:
+                    out.append((x, n))
+            return out
+        if isinstance(e, ast.Name) and e.id in lists:
+            return list(lists[e.id])
+        if isinstance(e, ast.BinOp) and isinstance(e.op, ast.Add):
+            return elements(e.left, n) + elements(e.right, n)
+        if isinstance(e, ast.Call) and isinstance(e.func, ast.Name) and e.func.id in ("list", "tuple") and len(e.args) <= 1:
+            return elements(e.args[0], n) if e.args else []
+        raise AnalysisError(f"{fn.qualname}: `{unparse(e)[:60]}` is not a list that is built element by element")
 
     for s in fn.body:
-        if isinstance(s, ast.Assign) and len(s.targets) == 1 and isinstance(s.targets[0], ast.Name):
-            env[s.targets[0].id] = ev(s.value)
-        elif isinstance(s, ast.AnnAssign) and isinstance(s.target, ast.Name) and s.value is not None:
-            env[s.target.id] = ev(s.value)
-        elif isinstance(s, ast.Return) and s.value is not None:
-            return ev(s.value)
-        else:
-            raise AnalysisError(f"{fn.qualname}: unsupported statement for constant evaluation at line {s.lineno}")
+        n = node_of.get(id(s))
+        if isinstance(s, ast.Expr) and isinstance(s.value, ast.Constant):
+            continue
+        if isinstance(s, (ast.Assign, ast.AnnAssign)) and s.value is not None:
+            tg = s.targets[0] if isinstance(s, ast.Assign) else s.target
+            if isinstance(tg, ast.Name):
+                try:
+                    lists[tg.id] = elements(s.value, n)
+                except AnalysisError:
+                    lists.pop(tg.id, None)  # an ordinary local (resolved through the term machinery)
+            continue
+        if isinstance(s, ast.AugAssign) and isinstance(s.target, ast.Name) and s.target.id in lists and isinstance(s.op, ast.Add):
+            lists[s.target.id] = lists[s.target.id] + elements(s.value, n)
+            continue
+        if isinstance(s, ast.Expr) and isinstance(s.value, ast.Call) and isinstance(s.value.func, ast.Attribute) and \
+                isinstance(s.value.func.value, ast.Name) and s.value.func.value.id in lists:
+            c = s.value
+            if c.func.attr == "append" and len(c.args) == 1:
+                lists[c.func.value.id].append((c.args[0], n))
+                continue
+            if c.func.attr == "extend" and len(c.args) == 1:
+                lists[c.func.value.id] += elements(c.args[0], n)
+                continue
+        if isinstance(s, ast.Return) and s.value is not None:
+            return elements(s.value, n)
+        if isinstance(s, (ast.Import, ast.ImportFrom, ast.Pass)):
+            continue
+        raise AnalysisError(f"{fn.qualname}: statement at line {s.lineno} is not part of a straight-line list construction")
     raise AnalysisError(f"{fn.qualname}: no return")
 
 
@@ -92,18 +138,9 @@ def function_factory(p: Program) -> list[Element]:
         if fn is None:
             raise AnalysisError(f"anchor vanished: FunctionFactory.{fname}")
         r = Resolver(p, fn)
-        rets = [n for n in r.cfg.stmt_nodes() if isinstance(n.ast, ast.Return) and n.ast.value is not None]
-        if len(rets) != 1:
-            raise AnalysisError(f"FunctionFactory.{fname}: expected a single return")
-        t = r.term(rets[0].ast.value, rets[0])
-        if t[0] != "list":
-            raise AnalysisError(f"FunctionFactory.{fname}: registry is not a list literal ({show(t)[:60]})")
-        # locate the ast list for line numbers
-        lst = None
-        for s in ast.walk(fn.node):
-            if isinstance(s, ast.List) and len(s.elts) == len(t[1]) and s.elts and isinstance(s.elts[0], ast.Call):
-                lst = s
-        for i, el in enumerate(t[1]):
+        entries = built_list(fn, r)
+        for i, (el_ast, el_node) in enumerate(entries):
+            el = r.term(el_ast, el_node)
             if not (el[0] == "call" and el[1][0] == "global" and el[1][1].endswith("Function.Element")):
                 raise AnalysisError(f"FunctionFactory.{fname}: entry {i} is not a Function.Element(...) call: {show(el)[:60]}")
             bound: dict[str, Term] = {}
@@ -111,7 +148,7 @@ def function_factory(p: Program) -> list[Element]:
                 bound[name] = a
             for k, v in el[3]:
                 bound[k] = v
-            line = lst.elts[i].lineno if lst is not None else fn.lineno
+            line = el_ast.lineno
 
             def num(key: str) -> Any:
                 if key in bound:
@@ -141,7 +178,7 @@ def function_factory(p: Program) -> list[Element]:
                 method = m[1]
             elif m[0] == "opaque" and m[1] == "Lambda":
                 # find the lambda source
-                lam = [x for x in ast.walk(lst.elts[i]) if isinstance(x, ast.Lambda)] if lst is not None else []
+                lam = [x for x in ast.walk(el_ast) if isinstance(x, ast.Lambda)]
                 method = "lambda: " + (p.resolve_global(unparse(lam[0].body), fn.module) if lam else "?")
             else:
                 method = show(m)
